@@ -203,7 +203,12 @@ def run_tool(tool, args, outdir, timeout=3000):
     except subprocess.TimeoutExpired:
         return None, "tool %s timed out" % tool
     if p.returncode != 0 or not os.path.exists(rj):
-        return None, "tool %s failed (exit %d): %s" % (tool, p.returncode, (p.stdout or "")[-2000:])
+        out = p.stdout or ""
+        excerpt = out[-2000:]
+        k = out.find("WARNING: DATA RACE")
+        if k >= 0 and k < len(out) - 2000:
+            excerpt = out[k:k + 2500] + "\n...\n" + excerpt      # the race detector's first report, not only the tail of the output
+        return None, "tool %s failed (exit %d): %s" % (tool, p.returncode, excerpt)
     return json.load(open(rj)), None
 
 
